@@ -40,12 +40,6 @@ type windowD struct {
 	Late     []latePair `json:"late,omitempty"`     // retained responses read again later
 	Overlaps int64      `json:"overlaps,omitempty"` // concurrent entries into one node's Process during the window
 	LateBad  int        `json:"late_mismatches,omitempty"`
-	Prev     *prevD     `json:"prev,omitempty"` // the window before this one on the same instance (replay warm-up)
-}
-
-type prevD struct {
-	Init  []int   `json:"init"`
-	Progs [][]opD `json:"progs"`
 }
 
 func (w *windowD) flagged() bool { return w.GoNonLin || w.Timeout || w.LateBad > 0 || w.Overlaps > 0 }
@@ -380,7 +374,7 @@ func genPrograms(r *hx.Rng, g *liveGraph, T int, cur []int, withUnlocked bool) [
 		if r.Chance(1, 4) {
 			p = r.Intn(P)
 		}
-		if r.Chance(1, 8) {
+		if r.Chance(1, 8) && g.par[p].typ != "file" { // parameter.File accepts every byte string
 			return opD{K: "b", P: p}
 		}
 		v := (planned[p] + 1 + r.Intn(3)) % 10
@@ -496,22 +490,28 @@ func finishWindow(w *windowD, recs []rec) {
 // from earlier windows are read again and compared with what they showed at response time; then the window's
 // slice-backed responses join the retained set
 func afterWindow(g *liveGraph, w *windowD) {
+	var fresh []*rec
 	for k := range w.Calls {
 		c := &w.Calls[k]
 		if (c.Op.K == "a" || c.Op.K == "g") && c.Resp.K != "fail" {
-			w.Late = append(w.Late, latePair{Orig: c.Resp, Late: c.reread(false), When: "window-end", Op: c.Op})
+			late := c.reread(false)
+			w.Late = append(w.Late, latePair{Orig: c.Resp, Late: late, When: "window-end", Op: c.Op})
+			if respEq(c.Resp, late) && c.sliceBacked() {
+				cp := *c
+				fresh = append(fresh, &cp)
+			}
 		}
 	}
+	// a retained response found changed is reported once, in the window whose updates changed it
+	kept := g.retained[:0:0]
 	for _, old := range g.retained {
-		w.Late = append(w.Late, latePair{Orig: old.Resp, Late: old.reread(false), When: "later-window", Op: old.Op})
-	}
-	for k := range w.Calls {
-		c := &w.Calls[k]
-		if c.Resp.K != "fail" && c.sliceBacked() {
-			cp := *c
-			g.retained = append(g.retained, &cp)
+		late := old.reread(false)
+		w.Late = append(w.Late, latePair{Orig: old.Resp, Late: late, When: "later-window", Op: old.Op})
+		if respEq(old.Resp, late) {
+			kept = append(kept, old)
 		}
 	}
+	g.retained = append(kept, fresh...)
 	if n := len(g.retained); n > 8 {
 		g.retained = g.retained[n-8:]
 	}
@@ -521,6 +521,45 @@ func afterWindow(g *liveGraph, w *windowD) {
 		if !respEq(l.Orig, l.Late) {
 			w.LateBad++
 		}
+	}
+}
+
+// prime (quiescent, main goroutine): re-upload the current value of every slice-valued parameter (so that the
+// parameter owns a buffer of exactly that size) and retain one read of each of them and of each artifact that
+// keeps the slice -- later windows re-read these after their updates
+func (g *liveGraph) prime(cur []int, clock *atomic.Uint64) {
+	for p := range g.par {
+		if t := g.par[p].typ; t == "file" || t == "ints" {
+			g.do(0, opD{K: "u", P: p, V: cur[p]}, clock)
+		}
+	}
+	for p := range g.par {
+		if t := g.par[p].typ; t == "file" || t == "ints" {
+			rc := g.do(0, opD{K: "g", P: p}, clock)
+			if rc.Resp.K == "get" {
+				g.retained = append(g.retained, &rc)
+			}
+		}
+	}
+	for k, pr := range g.shape.Prods {
+		if pr.Kind != "" {
+			rc := g.do(0, opD{K: "a", Prod: k}, clock)
+			if rc.Resp.K == "art" {
+				g.retained = append(g.retained, &rc)
+			}
+		}
+	}
+}
+
+// primeGuarded: prime under the window deadline (an implementation that never releases the mutex must not hang us)
+func (g *liveGraph) primeGuarded(cur []int, clock *atomic.Uint64) bool {
+	done := make(chan bool, 1)
+	go func() { g.prime(cur, clock); done <- true }()
+	select {
+	case <-done:
+		return true
+	case <-time.After(*windowTimeout + *windowTimeout/2):
+		return false
 	}
 }
 
@@ -670,37 +709,26 @@ func main() {
 		reproduced := 0
 		for a := 0; a < *attempts && reproduced < 3; a++ {
 			run.Count("replay:attempt")
-			init := w.Init
-			if w.Prev != nil {
-				init = w.Prev.Init
+			g := build(w.Shape, w.Init, &jit{level: w.Jitter})
+			nw := &windowD{Shape: w.Shape, Threads: w.Threads, Jitter: w.Jitter, Progs: w.Progs}
+			okp := g.primeGuarded(w.Init, clock)
+			var ok0 bool
+			if okp {
+				nw.Init, nw.Ver, ok0 = g.readState()
 			}
-			g := build(w.Shape, init, &jit{level: w.Jitter})
-			seq := [][][]opD{w.Progs}
-			if w.Prev != nil { // warm-up: the window before it, so that retained responses exist
-				seq = [][][]opD{w.Prev.Progs, w.Progs}
+			if !ok0 {
+				nw.Init, nw.Final, nw.Timeout = w.Init, w.Init, true
+				finishWindow(nw, []rec{stuckRead(clock)})
+			} else {
+				oneWindow(g, nw, clock)
 			}
-			stop := false
-			for k, progs := range seq {
-				nw := &windowD{Shape: w.Shape, Threads: w.Threads, Jitter: w.Jitter, Progs: progs}
-				var ok0 bool
-				if nw.Init, nw.Ver, ok0 = g.readState(); !ok0 {
-					nw.Init, nw.Final, nw.Timeout = init, init, true
-					finishWindow(nw, []rec{stuckRead(clock)})
-				} else {
-					oneWindow(g, nw, clock)
-				}
-				if nw.flagged() {
-					reproduced++
-					reruns = append(reruns, nw)
-				} else if a%15 == 0 && k == len(seq)-1 { // a sample of the accepted re-runs is judged by Coq as well
-					reruns = append(reruns, nw)
-				}
-				if nw.Timeout {
-					stop = true
-					break
-				}
+			if nw.flagged() {
+				reproduced++
+				reruns = append(reruns, nw)
+			} else if a%15 == 0 { // a sample of the accepted re-runs is judged by Coq as well
+				reruns = append(reruns, nw)
 			}
-			if stop {
+			if nw.Timeout {
 				break
 			}
 		}
@@ -749,6 +777,11 @@ func main() {
 		init0 := randomInit(r, shape)
 		g := build(shape, init0, &jit{level: jl})
 		cur, ver, ok0 := g.readState()
+		if ok0 {
+			if ok0 = g.primeGuarded(cur, clock); ok0 {
+				cur, ver, ok0 = g.readState()
+			}
+		}
 		if !ok0 {
 			// the very first sequential reads hang: report it as a one-call window and try another epoch
 			w := &windowD{Shape: shape, Threads: 1, Jitter: jl, Init: init0, Final: init0, Timeout: true}
@@ -760,13 +793,11 @@ func main() {
 			continue
 		}
 		nwin := r.Range(20, 50)
-		var prev *prevD
 		for k := 0; k < nwin && len(windows) < run.N; k++ {
-			w := &windowD{Shape: shape, Threads: T, Jitter: jl, Init: cur, Ver: ver, Prev: prev}
+			w := &windowD{Shape: shape, Threads: T, Jitter: jl, Init: cur, Ver: ver}
 			w.Progs = genPrograms(r, g, T, cur, *unlockedReads)
 			oneWindow(g, w, clock)
 			windows = append(windows, w)
-			prev = &prevD{Init: w.Init, Progs: w.Progs}
 			cur, ver = w.Final, w.VerAfter
 			if w.Timeout {
 				if wedged++; wedged >= 4 {
